@@ -47,7 +47,7 @@ type c05Step struct {
 // created with LIMIT 2 and the plain history already exceeds that.
 func c05HistoryFor(cfg c05Config) []c05Step {
 	h := c05History()
-	if cfg.Filter == "where" {
+	if cfg.Filter == "where" || cfg.Filter == "whereeval" {
 		flip := []c05Step{
 			{Cmd: w("SET fk a FIELD speed 5000 POINT 0.1 0.1"), Verb: "set", ID: "a", Prev: "inside", New: "outside"},
 			{Cmd: w("SET fk a FIELD speed 7 POINT 0 0"), Verb: "set", ID: "a", Prev: "outside", New: "inside"},
@@ -214,6 +214,10 @@ func (c c05Config) fenceArgs() (pre []string, area []string) {
 		opts = append(opts, "WHERE", "speed", "0", "100")
 	case "nowhere":
 		opts = append(opts, "WHERE", "speed", "1000", "2000")
+	case "whereeval": // the same verdicts as "where", computed by a script that uses its ARGV
+		opts = append(opts, "WHEREEVAL", "return FIELDS.speed >= ARGV[1]+0 and FIELDS.speed <= ARGV[2]+0", "2", "0", "100")
+	case "nowhereeval":
+		opts = append(opts, "WHEREEVAL", "return FIELDS.speed >= ARGV[1]+0", "1", "1000")
 	case "limit":
 		opts = append(opts, "LIMIT", "2")
 	}
@@ -261,7 +265,7 @@ func c05RunConfig(job *Job, res *Result, cfg c05Config) {
 			accept[a] = true
 		}
 	}
-	filterOK := cfg.Filter != "nomatch" && cfg.Filter != "nowhere"
+	filterOK := cfg.Filter != "nomatch" && cfg.Filter != "nowhere" && cfg.Filter != "nowhereeval"
 	ep := newFakeEndpoint(nil)
 	defer ep.Close()
 	x := runExec(job, freezeAllBut("manager", "backgroundExpiring"), func(x *Exec) {
@@ -378,7 +382,7 @@ func c05RunConfig(job *Job, res *Result, cfg c05Config) {
 }
 
 func checkC05(job *Job, res *Result) {
-	res.Rule = "SEQ over configurations: fence shape {NEARBY point, WITHIN bounds, INTERSECTS polygon} x 33 DETECT settings (default + all 32 subsets) x COMMANDS {none,set,del,'set,fset'} x filter {none, MATCH hit, MATCH miss, WHERE hit, WHERE miss} x population of other hooks {none, disjoint, overlapping, outside-detecting, 70 disjoint, same names previously defined with another area, fences on other collections covering the area}; per configuration an 18-step history covering every transition of the table, FSET, DEL, PDEL, expiry, DROP (+4 steps of an extended object straddling the border; +5 filter-verdict flips under WHERE; fences created with LIMIT 2; a 106-notification prefix exceeding the default LIMIT); receivers: channel, webhook, live; distinct = distinct (configuration class, step, expected list)"
+	res.Rule = "SEQ over configurations: fence shape {NEARBY point, WITHIN bounds, INTERSECTS polygon} x 33 DETECT settings (default + all 32 subsets) x COMMANDS {none,set,del,'set,fset'} x filter {none, MATCH hit, MATCH miss, WHERE hit, WHERE miss, WHEREEVAL hit / miss (scripts reading ARGV)} x population of other hooks {none, disjoint, overlapping, outside-detecting, 70 disjoint, same names previously defined with another area, fences on other collections covering the area}; per configuration an 18-step history covering every transition of the table, FSET, DEL, PDEL, expiry, DROP (+4 steps of an extended object straddling the border; +5 filter-verdict flips under WHERE; fences created with LIMIT 2; a 106-notification prefix exceeding the default LIMIT); receivers: channel, webhook, live; distinct = distinct (configuration class, step, expected list)"
 	res.Assumptions = append(res.Assumptions,
 		"a 'del' for an object that was outside the area (or fails the filter) is allowed but not required; 'drop' is required only under default detection; an FSET on an object that fails WHERE before and after may or may not produce 'outside'; a live fence connection is not asserted for DROP",
 		"an object that does not satisfy the WHERE filter counts as outside the area (a SET/FSET that flips the verdict of an object inside the area is an enter or an exit)")
@@ -387,7 +391,7 @@ func checkC05(job *Job, res *Result) {
 	for _, f := range []string{"nearby", "within", "intersects"} {
 		for d := -1; d < 32; d++ {
 			for _, a := range []string{"", "set", "del", "set,fset"} {
-				for _, fl := range []string{"none", "match", "nomatch", "where", "nowhere", "limit"} {
+				for _, fl := range []string{"none", "match", "nomatch", "where", "nowhere", "limit", "whereeval", "nowhereeval"} {
 					for _, p := range []string{"none", "disjoint", "overlap", "outside", "many", "redefined", "long", "otherkey"} {
 						if quick {
 							// quick: full DETECT x shape x population for the plain fence; filters and COMMANDS on a DETECT sample
